@@ -354,6 +354,11 @@ const ITEM_STARTS: [&str; 29] = [
 /// shapes of the item that ends in the variable `@`: alone, tail of binary / unary expressions
 const LEFT_SHAPES: [&str; 8] = ["@", "X+@", "-@", "NOT @", "(X)*@", "X OR @", "1<@", "X-(Y)/@"];
 
+/// shapes of the FOLLOWING item built around the reserved-word-led operand `#`: alone, and as the left-most leaf of
+/// binary arithmetic / relational / logical / string expressions (then the next named sibling of the name is a
+/// `binary_aexpr` / `binary_sexpr`, not an `fcall`) -- what the name runs into is the FIRST TERMINAL of the item
+const RIGHT_SHAPES: [&str; 10] = ["#", "#*2", "#+1", "#<1", "# AND Y", "# OR Y", "#*2+Y", "#^2-1", "#+B$", "#=B$"];
+
 /// two-character name prefixes that would complete a reserved word with the first characters of
 /// `item` (`CO`+`SIN(` = COS, `XI`+`FRE(` = IF): computed from the ROM table
 fn hazard_prefixes(item: &str) -> Vec<String> {
@@ -922,6 +927,7 @@ fn run_juxt_cases(ctx: &mut Ctx, idx: usize) {
     let mut parser = new_parser();
     let mut n = 0u64;
     let mut hazardous = 0u64;
+    let mut composite = 0u64;
     let all: Vec<String> = if ctx.tier_thorough {
         let mut v = Vec::new();
         for a in b'A'..=b'Z' { for b in (b'A'..=b'Z').chain(b'0'..=b'9') { v.push(format!("{}{}", a as char, b as char)); } }
@@ -936,10 +942,19 @@ fn run_juxt_cases(ctx: &mut Ctx, idx: usize) {
         for pre in pres.iter() {
             for tail in ["QQQ", "Q"] {
                 let name = format!("{}{}", pre, tail);
-                for shape in LEFT_SHAPES.iter() {
-                    let line = format!("10 PRINT {} {}", shape.replace('@', &name), item);
+                // every left shape with the bare item (as before); the composite right shapes with two left shapes in the
+                // quick tier (hazardous prefixes and one control only), the full product in the thorough tier
+                let mut combos: Vec<(&str, &str)> = LEFT_SHAPES.iter().map(|l| (*l, "#")).collect();
+                if ctx.tier_thorough || hz.contains(pre) || pre == "XQ" {
+                    for r in RIGHT_SHAPES.iter().skip(1) {
+                        for l in LEFT_SHAPES.iter().take(if ctx.tier_thorough { LEFT_SHAPES.len() } else { 2 }) { combos.push((*l, *r)); }
+                    }
+                }
+                for (shape, rshape) in combos.iter() {
+                    let line = format!("10 PRINT {} {}", shape.replace('@', &name), rshape.replace('#', item));
                     let src = format!("{}\n", line);
                     if !verifies(&src) { continue; }
+                    if *rshape != "#" { composite += 1; }
                     let out = match minify(&src, 1) { Res::Ok(s) => s, _ => continue };
                     n += 1;
                     if hz.contains(pre) { hazardous += 1; }
@@ -961,6 +976,7 @@ fn run_juxt_cases(ctx: &mut Ctx, idx: usize) {
     }
     ctx.out.count_n("juxtaposition-sweep-cases", n);
     ctx.out.count_n("juxtaposition-sweep-hazardous", hazardous);
+    ctx.out.count_n("juxtaposition-sweep-composite-right-item", composite);
     ctx.out.case(b"juxtaposition-sweep", hazardous > 0);
 }
 
@@ -1083,6 +1099,12 @@ pub fn run(ctx: &mut Ctx) {
     for _ in 0..ns {
         let mut r = rs.fork(idx as u64);
         if ctx.out.wants(idx) { run_session(ctx, idx, &mut r, &mut discards, &haz); }
+        idx += 1;
+    }
+    // witnesses with a COMPOSITE following item (binary expression led by a function call / NOT): appended after the sessions
+    for p in ["10 PRINT CAKES TAN(X)*2\n20 END\n", "10 PRINT AGENT RND(1)+1\n20 END\n", "10 PRINT COUNT NOT X AND Y\n20 END\n", "10 PRINT X+CAKES TAB(3)\n20 END\n",
+              "10 PRINT XIBQQ FN Z(X)*2\n20 DEF FN Z(X) = X\n", "10 PRINT LOAD$;COQQQ SIN(X)<1;XOQQQ RND(1) OR Y\n20 END\n"].iter() {
+        if ctx.out.wants(idx) { run_case(ctx, idx, p, "c17/print-juxtaposition"); }
         idx += 1;
     }
     ctx.out.count_n("discarded-invalid-lines", discards);
